@@ -110,6 +110,8 @@ fn setup_of(scn: &Value) -> Value {
     ev["gc"] = json!(vec![0; nv]);
     ev["init_obs"] = scn["init"].clone();
     ev["units"] = norm_units(scn);
+    ev["rtf"] = json!(0);
+    ev["rtx"] = json!(false);
     // termination criterion: "default" is the exact criterion
     let t = scn["term"]["type"].as_str().unwrap_or("default");
     ev["term"] = json!({"type": if t == "default" { "exact" } else { t }, "n": scn["term"]["n"].as_i64().unwrap_or(0)});
@@ -185,6 +187,9 @@ fn gen(r: &mut StdRng, maxv: usize) -> Value {
     s["force_turn_model"] = json!(false);
     s["itl"] = json!(-1);
     s["szl"] = json!(-1);
+    s["rtf"] = json!(0);
+    s["rtx"] = json!(false);
+    s["sleep_at"] = json!(0);
     s["veh_on"] = json!(false);
     // underlying: Dijkstra, or A* with weight factor 1 (admissible on the metric networks only)
     let metric_ok = s["wf"].as_i64().unwrap_or(0) <= 1000;
